@@ -414,7 +414,9 @@ class Message(BaseMessage):
         :return:
         """
         if self._auto_decode and 'properties' in self._decode_cache:
-            self._decode_cache['properties'][name] = value
+            self._decode_cache['properties'].update(
+                self._try_decode_dict({name: value})
+            )
         self._properties[name] = value
 
     def _try_decode_utf8_content(self, content, content_type):
